@@ -1,1 +1,237 @@
-//! G6: hostile text generators (filled in with C12).
+//! G6: hostile text generators — hand-written variants, single-edit mutation, multi-byte
+//! splicing, exhaustive short-string enumeration, random UTF-8 and long inputs.
+
+use crate::rng::Rng;
+
+pub const FEN_ALPHABET: &str = "rnbqkpRNBQKP12345678/ wb-KQkqabcdefgh036.+09";
+pub const UCI_ALPHABET: &str = "abcdefgh12345678nbrq0 NBRQ";
+pub const SAN_ALPHABET: &str = "abcdefgh12345678NBRQKx=+#-O0:P";
+pub const MULTIBYTE: [&str; 6] = ["\u{e9}", "\u{20ac}", "\u{1F600}", "\u{2003}", "\u{a0}", "\u{2659}"];
+pub const CONTROL: [char; 6] = ['\0', '\t', '\n', '\r', '\u{7f}', '\u{1b}'];
+
+/// The symbol set for the exhaustive short-string enumeration (grammar-relevant ASCII,
+/// whitespace, NUL and three multi-byte characters of 2, 3 and 4 bytes).
+pub const SYMBOLS: [&str; 45] = [
+    "a", "b", "c", "d", "e", "f", "g", "h", "1", "2", "3", "4", "5", "6", "7", "8", "0", "9", "N", "B", "R", "Q", "K", "P",
+    "n", "q", "k", "r", "p", "w", "x", "=", "+", "#", "-", "O", ":", "/", " ", ".", "\t", "\0", "\u{e9}", "\u{20ac}", "\u{1F600}",
+];
+
+pub const FEN_VARIANTS: &[&str] = &[
+    "rnbqkbnr/pppppppp/8/8/8/8/PPPPPPPP/RNBQKBNR w KQkq - 0 1",
+    "rnbqkbnr/pppppppp/8/8/8/8/PPPPPPPP/RNBQKBNR w KQkq -",
+    "rnbqkbnr/pppppppp/8/8/8/8/PPPPPPPP/RNBQKBNR w KQkq - 10",
+    "rnbqkbnr/pppppppp/8/8/8/8/PPPPPPPP/RNBQKBNR w KQkq - 0 1 ",
+    "rnbqkbnr/pppppppp/8/8/8/8/PPPPPPPP/RNBQKBNR  w KQkq - 0 1",
+    " rnbqkbnr/pppppppp/8/8/8/8/PPPPPPPP/RNBQKBNR w KQkq - 0 1",
+    "rnbqkbnr/pppppppp/8/8/8/8/PPPPPPPP/RNBQKBNR w KQkq - 0 1 x",
+    "rnbqkbnr/pppppppp/8/8/8/8/PPPPPPPP/RNBQKBNR w KQkq - +5 1",
+    "rnbqkbnr/pppppppp/8/8/8/8/PPPPPPPP/RNBQKBNR w KQkq - 007 01",
+    "rnbqkbnr/pppppppp/8/8/8/8/PPPPPPPP/RNBQKBNR w KQkq - 65535 65535",
+    "rnbqkbnr/pppppppp/8/8/8/8/PPPPPPPP/RNBQKBNR w KQkq - 65536 1",
+    "rnbqkbnr/pppppppp/8/8/8/8/PPPPPPPP/RNBQKBNR w KQkq - -0 1",
+    "rnbqkbnr/pppppppp/8/8/8/8/PPPPPPPP/RNBQKBNR w KQkq - 0 -1",
+    "rnbqkbnr/pppppppp/8/8/8/8/PPPPPPPP/RNBQKBNR w qkQK - 0 1",
+    "rnbqkbnr/pppppppp/8/8/8/8/PPPPPPPP/RNBQKBNR w KK - 0 1",
+    "rnbqkbnr/pppppppp/8/8/8/8/PPPPPPPP/RNBQKBNR w  - 0 1",
+    "rnbqkbnr/pppppppp/8/8/8/8/PPPPPPPP/RNBQKBNR W KQkq - 0 1",
+    "rnbqkbnr/pppppppp/......../8/8/8/PPPPPPPP/RNBQKBNR w KQkq - 0 1",
+    "rnbqkbnr/pppppppp/44/8/8/8/PPPPPPPP/RNBQKBNR w KQkq - 0 1",
+    "rnbqkbnr/pppppppp/1111111 1/8/8/8/PPPPPPPP/RNBQKBNR w KQkq - 0 1",
+    "rnbqkbnr/pppppppp/9/8/8/8/PPPPPPPP/RNBQKBNR w KQkq - 0 1",
+    "rnbqkbnr/pppppppp/0/8/8/8/PPPPPPPP/RNBQKBNR w KQkq - 0 1",
+    "rnbqkbnr/pppppppp/8/8/8/8/PPPPPPPP w KQkq - 0 1",
+    "rnbqkbnr/pppppppp/8/8/8/8/PPPPPPPP/RNBQKBNR/8 w KQkq - 0 1",
+    "rnbqkbnr/pppppppp/8/8/8/8/PPPPPPPP/RNBQKBNRR w KQkq - 0 1",
+    "rnbqkbnr/pppp1ppp/8/4p3/4P3/8/PPPP1PPP/RNBQKBNR w KQkq e6 0 2",
+    "rnbqkbnr/pppp1ppp/8/4p3/4P3/8/PPPP1PPP/RNBQKBNR w KQkq e3 0 2",
+    "rnbqkbnr/pppp1ppp/8/4p3/4P3/8/PPPP1PPP/RNBQKBNR b KQkq e3 0 2",
+    "rnbqkbnr/pppp1ppp/8/4p3/4P3/8/PPPP1PPP/RNBQKBNR b KQkq e6 0 2",
+    "rnbqkbnr/pppp1ppp/8/4p3/4P3/8/PPPP1PPP/RNBQKBNR w KQkq e9 0 2",
+    "rnbqkbnr/pppp1ppp/8/4p3/4P3/8/PPPP1PPP/RNBQKBNR w KQkq i6 0 2",
+    "rnbqkbnr/pppp1ppp/8/4p3/4P3/8/PPPP1PPP/RNBQKBNR w KQkq e 0 2",
+    "rnbqkbnr/pppp1ppp/8/4p3/4P3/8/PPPP1PPP/RNBQKBNR w KQkq e66 0 2",
+    "8/8/8/8/8/8/8/8 w - - 0 1",
+    "8/8/8/8/8/8/8/8 w - a6 0 1",
+    "K7/8/8/8/8/8/8/7k w - h6 0 1",
+    "pppppppp/8/8/8/8/8/8/PPPPPPPP b KQkq h3 65535 0",
+    "",
+    " ",
+    "/",
+    "////////",
+    "8/8/8/8/8/8/8/8",
+    "w",
+    "- - - - - -",
+    "\u{e9}nbqkbnr/pppppppp/8/8/8/8/PPPPPPPP/RNBQKBNR w KQkq - 0 1",
+    "rnbqkbnr/pppppppp/8/8/8/8/PPPPPPPP/RNBQKBNR w KQkq \u{20ac} 0 1",
+    "rnbqkbnr/pppppppp/8/8/8/8/PPPPPPPP/RNBQKBNR\u{a0}w KQkq - 0 1",
+    "rnbqkbnr/pppppppp/8/8/8/8/PPPPPPPP/RNBQKBNR\tw\tKQkq\t-\t0\t1",
+    "rnbqkbnr/pppppppp/8/8/8/8/PPPPPPPP/RNBQKBNR w KQkq - 0 1\n",
+    "rnbqkbnr/pppppppp/8/8/8/8/PPPPPPPP/RNBQKBNR w KQkq - 0 1\0",
+];
+
+fn rand_insert(rng: &mut Rng, alphabet: &str) -> String {
+    match rng.below(10) {
+        0 => rng.pick(&MULTIBYTE).to_string(),
+        1 => rng.pick(&CONTROL).to_string(),
+        _ => {
+            let a: Vec<char> = alphabet.chars().collect();
+            rng.pick(&a).to_string()
+        }
+    }
+}
+
+/// One or two random edits of `base`.
+pub fn mutate(rng: &mut Rng, base: &str, alphabet: &str) -> String {
+    let mut cs: Vec<String> = base.chars().map(|c| c.to_string()).collect();
+    let edits = 1 + rng.below(2);
+    for _ in 0..edits {
+        let n = cs.len();
+        match rng.below(9) {
+            0 if n > 0 => {
+                cs.remove(rng.below(n));
+            }
+            1 => {
+                let ins = rand_insert(rng, alphabet);
+                cs.insert(rng.below(n + 1), ins);
+            }
+            2 if n > 0 => {
+                let i = rng.below(n);
+                cs[i] = rand_insert(rng, alphabet);
+            }
+            3 if n > 1 => {
+                let i = rng.below(n - 1);
+                cs.swap(i, i + 1);
+            }
+            4 if n > 0 => {
+                let i = rng.below(n);
+                let c = cs[i].clone();
+                cs.insert(i, c);
+            }
+            5 if n > 0 => {
+                cs.truncate(rng.below(n + 1));
+            }
+            6 => {
+                // drop, duplicate or swap a whole space-separated field
+                let s: String = cs.concat();
+                let mut fields: Vec<&str> = s.split(' ').collect();
+                if !fields.is_empty() {
+                    let i = rng.below(fields.len());
+                    match rng.below(3) {
+                        0 => {
+                            fields.remove(i);
+                        }
+                        1 => {
+                            let f = fields[i];
+                            fields.insert(i, f);
+                        }
+                        _ => {
+                            let j = rng.below(fields.len());
+                            fields.swap(i, j);
+                        }
+                    }
+                }
+                let joined = fields.join(" ");
+                cs = joined.chars().map(|c| c.to_string()).collect();
+            }
+            7 => {
+                let ins = rng.pick(&MULTIBYTE).to_string();
+                cs.insert(rng.below(n + 1), ins);
+            }
+            _ => {
+                // numeric tweak: append digits to the end
+                let d = ["0", "9", "65535", "65536", "99999999999999999999"];
+                cs.push(rng.pick(&d).to_string());
+            }
+        }
+    }
+    cs.concat()
+}
+
+/// Every string of at most `maxlen` symbols (including the empty string).
+pub fn enumerate(symbols: &[&str], maxlen: usize, f: &mut dyn FnMut(&str)) {
+    fn rec(symbols: &[&str], left: usize, cur: &mut String, f: &mut dyn FnMut(&str)) {
+        f(cur);
+        if left == 0 {
+            return;
+        }
+        for s in symbols {
+            let l = cur.len();
+            cur.push_str(s);
+            rec(symbols, left - 1, cur, f);
+            cur.truncate(l);
+        }
+    }
+    let mut cur = String::new();
+    rec(symbols, maxlen, &mut cur, f);
+}
+
+/// Every string of exactly `len` symbols.
+pub fn enumerate_exact(symbols: &[&str], len: usize, f: &mut dyn FnMut(&str)) {
+    fn rec(symbols: &[&str], left: usize, cur: &mut String, f: &mut dyn FnMut(&str)) {
+        if left == 0 {
+            f(cur);
+            return;
+        }
+        for s in symbols {
+            let l = cur.len();
+            cur.push_str(s);
+            rec(symbols, left - 1, cur, f);
+            cur.truncate(l);
+        }
+    }
+    let mut cur = String::new();
+    rec(symbols, len, &mut cur, f);
+}
+
+/// Random well-formed UTF-8 of up to `max_chars` characters, biased to the alphabet.
+pub fn random_text(rng: &mut Rng, alphabet: &str, max_chars: usize) -> String {
+    let n = rng.below(max_chars + 1);
+    let a: Vec<char> = alphabet.chars().collect();
+    let mut s = String::new();
+    for _ in 0..n {
+        match rng.below(12) {
+            0 => { let m: &str = *rng.pick(&MULTIBYTE); s.push_str(m) }
+            1 => s.push(*rng.pick(&CONTROL)),
+            2 => {
+                // arbitrary scalar value
+                let v = rng.below(0x11_0000) as u32;
+                if let Some(c) = char::from_u32(v) {
+                    s.push(c);
+                }
+            }
+            _ => s.push(*rng.pick(&a)),
+        }
+    }
+    s
+}
+
+/// Splice each multi-byte character at every character boundary of `base`.
+pub fn splice_multibyte(base: &str, f: &mut dyn FnMut(&str)) {
+    let idx: Vec<usize> = base.char_indices().map(|(i, _)| i).chain(std::iter::once(base.len())).collect();
+    for mb in MULTIBYTE.iter().take(3) {
+        for &i in &idx {
+            let mut s = String::with_capacity(base.len() + 4);
+            s.push_str(&base[..i]);
+            s.push_str(mb);
+            s.push_str(&base[i..]);
+            f(&s);
+            // and as a replacement of the following character
+            if i < base.len() {
+                let next = base[i..].chars().next().unwrap().len_utf8();
+                let mut s = String::with_capacity(base.len() + 4);
+                s.push_str(&base[..i]);
+                s.push_str(mb);
+                s.push_str(&base[i + next..]);
+                f(&s);
+            }
+        }
+    }
+}
+
+/// Truncations of `base` at every character boundary.
+pub fn truncations(base: &str, f: &mut dyn FnMut(&str)) {
+    for (i, _) in base.char_indices() {
+        f(&base[..i]);
+    }
+    f(base);
+}
